@@ -482,11 +482,40 @@ def evaluate(world: World, op: dict, out: dict, model_post: dict | None) -> list
             F.append({"prop": "C10", "key": None, "what": "canonical", "margin": worst / ISO_TOL})
             if bad:
                 add("C10", f"mps:{name}:declared-centre-not-canonical", f"after {name}: object in slot {s} declares centre {c} but factors {bad} are not isometric towards it (defect {worst:.2e})", worst / ISO_TOL)
+                add("C11", f"mps:{name}:returns-object-with-false-centre", f"after {name}: object in slot {s} declares centre {c} but factors {bad} are not isometric towards it "
+                    f"(defect {worst:.2e}): norm(), expect_batch, sample of this object no longer agree with the dense state", worst / ISO_TOL)
             else:
                 cn = float(np.linalg.norm(tnp(m.factors[c])))
                 dn = float(np.linalg.norm(mps_vec(m)))
                 if abs(cn - dn) > 1e-9 * max(1.0, dn):
                     add("C10", f"mps:{name}:centre-norm-differs-from-norm", f"after {name}: centre tensor norm {cn} vs state norm {dn}")
+    # requirement-level oracles on EVERY live object after EVERY action (on a deep copy, so that the
+    # replay itself is not re-gauged): what the public read-only API answers vs the dense contraction
+    import torch as _torch
+
+    ops_b = np.stack([dense.op_n(d), np.arange(1, d * d + 1, dtype=float).reshape(d, d) * (0.3 + 0.1j)])
+    for s, m in S.items():
+        try:
+            vec = mps_vec(m)
+            mc = copy.deepcopy(m)
+            nv_, dn_ = float(mc.norm()), float(np.linalg.norm(vec))
+            eb = tnp(copy.deepcopy(m).expect_batch(_torch.tensor(ops_b)))
+        except Exception as ex:
+            add("C11", f"mps:{name}:object-unusable-afterwards", f"after {name}: norm() / expect_batch of the object in slot {s} raised {type(ex).__name__}: {ex}")
+            continue
+        bud = 1e-9 * max(1.0, dn_)
+        F.append({"prop": "C10", "key": None, "what": "norm()-vs-dense", "margin": abs(nv_ - dn_) / bud})
+        if not abs(nv_ - dn_) <= bud:
+            add("C10", f"mps:{name}:norm-differs-from-dense-norm", f"after {name}: norm() of the object in slot {s} = {nv_:.12g} but the represented vector has norm {dn_:.12g} "
+                f"(declared centre {m.orthogonality_center})", abs(nv_ - dn_) / bud)
+            add("C11", f"mps:{name}:norm-of-object-differs-from-dense", f"after {name}: norm() of the object in slot {s} = {nv_:.12g}, dense norm {dn_:.12g}", abs(nv_ - dn_) / bud)
+        ref_eb = tn.expect_batch(vec, ops_b, n, d)
+        e_err = float(np.abs(eb - ref_eb).max())
+        e_bud = 1e-9 * max(1.0, dn_ * dn_ * float(np.abs(ops_b).max()) * d)
+        F.append({"prop": "C11", "key": None, "what": "expect_batch-after-action", "margin": e_err / e_bud})
+        if not e_err <= e_bud:
+            add("C11", f"mps:{name}:expect_batch-of-object-differs-from-dense", f"after {name}: expect_batch of the object in slot {s} differs from the dense per-site expectations by {e_err:.3e} "
+                f"(declared centre {m.orthogonality_center})", e_err / e_bud)
     if "norm_pair" in out:
         v, nv = out["norm_pair"]
         if abs(v - nv) > 1e-9 * max(1.0, nv):
